@@ -164,7 +164,12 @@ def _check_split(ctx, case):
     if err:
         _fail(case, "subdivide_batches: %s" % err)
     with ctx.sut(case, "generate_batches"):
-        ranges = [(s, e) for s, e in Q.utils.generate_batches(n, num_batches=nb, max_batch=mb, start_index=start)]
+        if start == 0 and (n + (nb or mb)) % 2 == 0:
+            # the way every caller inside quantem uses it: start_index left at its default
+            ctx.count("split:default_start_index")
+            ranges = [(s, e) for s, e in Q.utils.generate_batches(n, num_batches=nb, max_batch=mb)]
+        else:
+            ranges = [(s, e) for s, e in Q.utils.generate_batches(n, num_batches=nb, max_batch=mb, start_index=start)]
     err = ref.ranges_error(ranges, n, start, nb, mb)
     if err:
         _fail(case, "generate_batches: %s" % err)
